@@ -12,10 +12,10 @@ def I(name):
 # T5 is an array-like type: it refers to the earlier type T1 and to the earlier constant C2 (its length); C2 refers to its type T1.
 # The storages panic on an id that has not been appended yet (HashMap index), so a use before the lift of its declaration is a panic.
 DEPS = {"C2": [("types", "T1")], "T5": [("types", "T1"), ("constants", "C2")]}
-RID = {"TF": True, "DEF2": True, "LABEL3": True, "TERM3": False, "OP3": True, "LABEL2": True, "TERM2": False, "T5": True, "PHI2": True, "T1": True, "C2": True, "X3": True, "T4": False, "DEF": True, "LABEL": True, "LINE": False, "PHI": True, "OP1": True, "OP2": False, "TERM": False,
+RID = {"UNDEF": True, "TF": True, "DEF2": True, "LABEL3": True, "TERM3": False, "OP3": True, "LABEL2": True, "TERM2": False, "T5": True, "PHI2": True, "T1": True, "C2": True, "X3": True, "T4": False, "DEF": True, "LABEL": True, "LINE": False, "PHI": True, "OP1": True, "OP2": False, "TERM": False,
        "CAP0": False, "CAP1": False, "MM": False}
-RTYPE = {"DEF2": True, "OP3": True, "DEF": True, "PHI": True, "PHI2": True, "OP1": True, "C2": True}
-OPCODE = {"TF": "TypeFunction", "DEF2": "Function", "LABEL3": "Label", "TERM3": "Return", "OP3": "IAdd", "LABEL2": "Label", "TERM2": "Return", "LINE": "Line", "PHI": "Phi", "PHI2": "Phi", "OP1": "IAdd", "OP2": "Store", "TERM": "Return", "T1": "TypeInt", "T4": "TypeForwardPointer", "T5": "TypeArray", "C2": "ConstantTrue",
+RTYPE = {"UNDEF": True, "DEF2": True, "OP3": True, "DEF": True, "PHI": True, "PHI2": True, "OP1": True, "C2": True}
+OPCODE = {"UNDEF": "Undef", "TF": "TypeFunction", "DEF2": "Function", "LABEL3": "Label", "TERM3": "Return", "OP3": "IAdd", "LABEL2": "Label", "TERM2": "Return", "LINE": "Line", "PHI": "Phi", "PHI2": "Phi", "OP1": "IAdd", "OP2": "Store", "TERM": "Return", "T1": "TypeInt", "T4": "TypeForwardPointer", "T5": "TypeArray", "C2": "ConstantTrue",
           "X3": "Variable", "DEF": "Function", "LABEL": "Label", "CAP0": "Capability", "CAP1": "Capability", "MM": "MemoryModel"}
 
 
@@ -69,7 +69,7 @@ class H(Hooks):
                 return ("some", I("LABEL"))
         if base == ("ablock", 2):
             if name == "instructions":
-                return ("list", [I("OP3"), I("TERM2")])
+                return ("list", [I("OP3"), I("UNDEF"), I("TERM2")])      # OpUndef inside a block is a result-producing instruction like any other
             if name == "label":
                 return ("some", I("LABEL2"))
         if isinstance(base, tuple) and base[0] == "ainst":
@@ -215,6 +215,8 @@ def expected():
                                                                         "terminator": ("lifted_terminator", "TERM")})),
         ("append", "ops", ("id", "OP3"), ("lifted_op", "OP3")),
         ("entry.insert", "ops", ("id", "OP3"), ("struct", "OpInfo", {"op": tok("ops", ("id", "OP3")), "ty": ("some", ("info_of", "types", ("rt", "OP3")))})),
+        ("append", "ops", ("id", "UNDEF"), ("lifted_op", "UNDEF")),
+        ("entry.insert", "ops", ("id", "UNDEF"), ("struct", "OpInfo", {"op": tok("ops", ("id", "UNDEF")), "ty": ("some", ("info_of", "types", ("rt", "UNDEF")))})),
         ("append_id", "blocks", ("id", "LABEL2"), ("struct", "Block", {"arguments": ("list", []), "ops": ("list", []), "terminator": ("lifted_terminator", "TERM2")})),
         ("lift_function", "DEF2"),
         ("append_id", SECOND_BLOCKS, ("id", "LABEL3"), ("struct", "Block", {"arguments": ("list", []), "ops": ("list", []), "terminator": ("lifted_terminator", "TERM3")})),
